@@ -309,7 +309,11 @@ public:
 		{ return is_loggable(lev) ? enqueue(what, lev, fl, val) : true; }
 
 	/// Stop the logging thread.
-	void stop() { _stopping.request_stop(); enqueue(std::string()); _thread.join(); }
+	void stop() { _stopping.request_stop(); enqueue(std::string(), Info, stop_marker()); _thread.join(); }
+
+	/*! The location marker carried by the element stop() queues; no logged line can carry it.
+	    \return the marker */
+	F8API static const char *stop_marker();
 
 	/*! Perform logfile rotation. Only relevant for file-type loggers.
 		\param force the rotation (even if the file is set to append)
